@@ -247,6 +247,13 @@ class C02(Property):
 
         geom, grid = gen.build_cart(spec["grid"])
         mask = gen.bits_to_mask(spec["bits"], geom.shape)
+        if spec["bits"] % 4 == 0 and geom.dim <= 2:
+            # the same image analysed first on a sibling grid (other periodicity, other spacing) must leave no trace
+            try:
+                sib = dict(spec["grid"], periodic=[not p for p in spec["grid"]["periodic"]], spacing=[2.0 * x for x in spec["grid"]["spacing"]])
+                self._locate(gen.build_cart(sib)[1], mask.copy(), spec)
+            except Exception:  # noqa: BLE001 - not judged
+                pass
         res = self._locate(grid, mask.copy(), spec)
         comps = O.components(mask, geom.periodic)
         nd = geom.dim
